@@ -8,6 +8,8 @@ an `…_native.bv_decide.ax_*` axiom which the audit lists by name.
 import ElfioVerif.Basic
 import ElfioVerif.Gen.Funcs
 import ElfioVerif.Gen.SitesC11
+import ElfioVerif.Gen.SitesC10
+import ElfioVerif.Spec.Symbols
 import Std.Tactic.BVDecide
 
 namespace ElfioVerif
@@ -87,6 +89,7 @@ theorem sext32_trunc_of_fits (a : BitVec 64) (h1 : BitVec.sle (-2147483648#64) a
 end ElfioVerif
 
 namespace ElfioVerif
+open Gen
 /-- flag tests of the membership rule: `(flags & F) == F` for a single-bit `F` is a bit test -/
 theorem and_eq_bit1 (x : BitVec 64) : ((x &&& 2#64) == 2#64) = x.getLsbD 1 := by
   bv_decide
@@ -94,4 +97,73 @@ theorem and_eq_bit10 (x : BitVec 64) : ((x &&& 1024#64) == 1024#64) = x.getLsbD 
   bv_decide
 theorem and_ne_bit10 (x : BitVec 64) : ((x &&& 1024#64) != 1024#64) = !x.getLsbD 10 := by
   bv_decide
+/-! ### C10 — the ELF_ST_BIND tests of `generic_arrange_local_symbols` and the r_info packing of
+`generic_set_entry_rel/rela` against the `get_r_sym` / `get_r_type` extractors -/
+
+theorem arr_scan1_nonlocal_bits (b : BitVec 8) :
+    arr64_scan1_nonlocal arr_conv8 b = (b >>> 4 != 0#8) := by
+  simp only [arr64_scan1_nonlocal, arr_conv8, STB_LOCAL]; bv_decide
+theorem arr_scan2_local_bits (b : BitVec 8) :
+    arr64_scan2_local arr_conv8 b = (b >>> 4 == 0#8) := by
+  simp only [arr64_scan2_local, arr_conv8, STB_LOCAL]; bv_decide
+
+theorem rel64_sym_info (s t : BitVec 32) :
+    rel64_r_sym (rsw_rel64_info s t) = s := by
+  simp only [rel64_r_sym, rsw_rel64_info]; bv_decide
+theorem rel64_type_info (s t : BitVec 32) :
+    rel64_r_type (rsw_rel64_info s t) = t := by
+  simp only [rel64_r_type, rsw_rel64_info]; bv_decide
+theorem rel32_sym_info (s t : BitVec 32) (h : BitVec.ult s 16777216#32 = true) :
+    rel32_r_sym (BitVec.setWidth 64 (rsw_rel32_info s t)) = s := by
+  simp only [rel32_r_sym, rsw_rel32_info]; bv_decide
+theorem rel32_type_info (s : BitVec 32) (t' : BitVec 64) :
+    rel32_r_type (BitVec.setWidth 64 (rsw_rel32_info s (rel32_r_type t'))) = rel32_r_type t' := by
+  simp only [rel32_r_type, rsw_rel32_info]; bv_decide
+theorem setWidth_signExtend_32 (v : BitVec 32) : BitVec.setWidth 32 (BitVec.signExtend 64 v) = v := by
+  bv_decide
+
+/-! ### C09: hash-function steps and the `ELF_ST_*` macro uses -/
+
+/-- one round of the generated `elf_hash` loop body is the gABI round -/
+theorem elf_hash_step (h : BitVec 32) (c : BitVec 8) :
+    (let h1 : BitVec 32 := (h <<< 4) + BitVec.setWidth 32 c
+     let g : BitVec 32 := h1 &&& 4026531840#32
+     let h2 := if (g != 0#32) = true then h1 ^^^ (g >>> 24) else h1
+     h2 &&& ~~~g) = Spec.sysvStep h c := by
+  simp only [Spec.sysvStep]
+  by_cases hg : ((h <<< 4) + BitVec.setWidth 32 c) &&& 4026531840#32 = 0#32
+  · simp [hg]
+  · simp [hg]
+
+/-- the gABI round in shift-free form (used for the arithmetic reading `sysvStepNat`) -/
+theorem sysvStep_arith (h : BitVec 32) (c : BitVec 8) :
+    Spec.sysvStep h c =
+      (((h * 16#32 + BitVec.setWidth 32 c) ^^^ ((((h * 16#32 + BitVec.setWidth 32 c) >>> 28)) * 16#32)) &&& 268435455#32) := by
+  simp only [Spec.sysvStep]
+  bv_decide
+
+theorem gnu_hash_step (h : BitVec 32) (c : BitVec 8) :
+    ((h <<< 5) + h) + BitVec.setWidth 32 c = Spec.gnuStep h c := by
+  simp only [Spec.gnuStep]
+  bv_decide
+
+/-- the shapes clang gives the `ELF_ST_INFO` / `ELF_ST_BIND` / `ELF_ST_TYPE` uses (operands promoted to
+    `int`, result converted back to `unsigned char`) are the gABI macros on `unsigned char`.  Stated
+    on explicit terms so that a change of the generated sites breaks Lemmas/Symbols.lean, not this
+    file (which the driver imports). -/
+theorem bits_st_info (b t : BitVec 8) :
+    BitVec.setWidth 8 (((BitVec.setWidth 32 b) <<< 4) + ((BitVec.setWidth 32 t) &&& 15#32)) = Spec.stInfo b t := by
+  simp only [Spec.stInfo]; bv_decide
+theorem bits_st_bind (i : BitVec 8) :
+    BitVec.setWidth 8 (BitVec.sshiftRight (BitVec.setWidth 32 i) 4) = Spec.stBind i := by
+  simp only [Spec.stBind]; bv_decide
+theorem bits_st_type (i : BitVec 8) :
+    BitVec.setWidth 8 ((BitVec.setWidth 32 i) &&& 15#32) = Spec.stType i := by
+  simp only [Spec.stType]; bv_decide
+/-- packing then unpacking keeps the low four bits of binding and type -/
+theorem st_bind_info (b t : BitVec 8) : Spec.stBind (Spec.stInfo b t) = b &&& 0xf := by
+  simp only [Spec.stBind, Spec.stInfo]; bv_decide
+theorem st_type_info (b t : BitVec 8) : Spec.stType (Spec.stInfo b t) = t &&& 0xf := by
+  simp only [Spec.stType, Spec.stInfo]; bv_decide
+
 end ElfioVerif
